@@ -5,6 +5,7 @@ import (
 
 	"verif/harness/core"
 	"verif/harness/eco"
+	"verif/harness/gen"
 )
 
 // cmpSyntax is the static table of supported comparator syntax per ecosystem, written from each
@@ -202,6 +203,50 @@ func runC02(c *core.Ctx, ck *Check) {
 			jobs = append(jobs, job{e, k})
 		}
 	}
+	// hash-collision bounds (gen/collide.go): ordinary versions whose texts collide under a common 32-bit hash are used
+	// as bounds one right after the other, so that any state keyed on a hash of the bound text serves the wrong bound
+	var ecosC02 []*eco.Eco
+	for _, e := range eco.All() {
+		if _, ok := CmpTable[e.Name]; ok {
+			ecosC02 = append(ecosC02, e)
+		}
+	}
+	c.Parallel(len(ecosC02), func(w *core.W, i int) {
+		e := ecosC02[i]
+		syn := CmpTable[e.Name]
+		r := c.Rand("c02-collide", e.Name)
+		pairs := gen.CollidingPairs(gen.CollisionPrefix(e.Name))
+		var spell []string
+		for s := range syn.ops {
+			spell = append(spell, s)
+		}
+		sortStrings(spell)
+		reported := map[string]int{}
+		for k := 0; k < c.Scale(200, 1200) && len(pairs) > 0; k++ {
+			cp := pairs[(k+r.IntN(len(pairs)))%len(pairs)]
+			p := &Pool{Eco: e}
+			seen := map[string]bool{}
+			if !p.Add(cp.A, seen) || !p.Add(cp.B, seen) {
+				w.Count("collision_pairs_not_accepted", 1)
+				continue
+			}
+			for _, s := range []string{"0.0.1", "5.0.0", "10.10.10", "20.3.4", "50.50.50", "98.99.99", "120.0.0"} {
+				p.Add(gen.CollisionPrefix(e.Name)+s, seen)
+			}
+			bidx := map[string]int{cp.A: 0, cp.B: 1}
+			for _, sp := range spell {
+				for _, b := range []string{cp.A, cp.B, cp.A} {
+					txt := sp + b
+					if syn.listOnly {
+						txt += ","
+					}
+					try2(c, w, e, syn, p, bidx, txt, []string{sp, b}, reported)
+				}
+			}
+			w.Count("collision_pairs_as_bounds", 1)
+			w.Count("collision_hash:"+cp.Hash, 1)
+		}
+	})
 	c.Parallel(len(jobs), func(w *core.W, i int) {
 		j := jobs[i]
 		e := j.e
